@@ -474,17 +474,35 @@ func init() {
 		}
 		jobs = append(jobs, Job{Pkg: "root", Func: "VerifC10NDPOptions", Args: []int64{n}, SplitN: 8, Cfg: cfg(64, 400)})
 		jobs = append(jobs, Job{Pkg: "root", Func: "VerifC10DNSEntry", SplitN: 192, Cfg: Config{MaxLoop: 64, MaxWall: 600, Stubs: map[string]bool{"concidx": true}}})
+		// the handlers' retained state: router table (C14 RA harness), DNS table / mDNS entries (C17 handler harnesses),
+		// DHCP lease table and what the session learns from DHCP (C11 step harness, empty table, every mode and variant)
+		for _, j := range icmp6Jobs(tier) {
+			if j.Func == "VerifC14RA" {
+				jobs = append(jobs, j)
+			}
+		}
+		for _, j := range dnsJobs(tier) {
+			if j.Func == "VerifC17ProcessDNS" || j.Func == "VerifC17MDNS" {
+				jobs = append(jobs, j)
+			}
+		}
+		for _, j := range dhcpJobs("quick") {
+			if j.Func == "VerifC11Step" && j.Args[2] == 0 {
+				jobs = append(jobs, j)
+			}
+		}
 		return jobs
 	}
 	c10Bounds := func(tier string) map[string]string {
 		b := stepBounds(tier)
 		b["NDP options"] = "a single NDP option of every type, length 0..40 (quick) / 0..56 (thorough) bytes (DNSSL <= 16), all contents: the NewOptions structure (prefixes, RDNSS servers, link-layer addresses, route information, DNSSL) stored by the ICMPv6 handler"
+		b["handlers"] = "ICMPv6 handler + session after every RA of the C14 harness; naming handler table, the entry ProcessDNS returns and the entries ProcessMDNS returns (C17 handler harnesses); DHCP lease table + session after every message of the C11 step harness from the empty table"
 		b["DNS entry"] = "the C08 message templates (one arbitrary field, every truncation): the DNSEntry built by DecodeQuestion/DecodeAnswers and its Copy()"
 		return b
 	}
 	register(&Prop{ID: "C10", Jobs: c10Jobs, Bounds: c10Bounds, Assumptions: common, Filter: prefixFilter("C10:", false),
 		Technique: "provenance invariant by bounded symbolic execution: after each step everything reachable from the session is walked and must not reference the tagged packet buffer (exact per path, all inputs in the bound)",
-		Outside:   []string{"the four handlers' retained state (DHCP leases, router / DNS tables): not encoded in this session", "SSDP / UPnP"}})
+		Outside:   []string{"the ARP handler's hunt list (keyed by copies made by the caller)", "SSDP / UPnP"}})
 }
 
 func init() {
